@@ -285,6 +285,10 @@ func (r *DeviceLocal) EntityForType(entityType model.EntityTypeType) api.EntityL
 }
 
 func (r *DeviceLocal) FeatureByAddress(address *model.FeatureAddressType) api.FeatureLocalInterface {
+	if address == nil {
+		return nil
+	}
+
 	entity := r.Entity(address.Entity)
 	if entity != nil {
 		return entity.FeatureOfAddress(address.Feature)
